@@ -244,6 +244,25 @@ CLAIMED = {
                      "+ exhaustive bounded-history differential correspondence",
         "design_ref": "DESIGN.md section 7 (C15)",
     },
+    "C16": {
+        "category": "proof",
+        "text": "Theorems for every ring of every polygon constructor call and every patch of every multipatch constructor call "
+                "(any vertex counts, any coordinates): C16_rings / C16_multipatch (what is stored = each input ring closed and "
+                "reordered; strips and fans untouched), C16_vertices (a stored ring keeps its role and is the caller's sequence, "
+                "closed by one copy of its first vertex if it was open, then kept or reversed as a whole: no vertex lost, "
+                "altered or moved - whatever the orientation test answers), C16_closed (first == last in every coordinate the "
+                "point type has, X/Y and M/Z, when the first vertex has no NaN), C16_orientation (the orientation test of the "
+                "stored order returns the declared role whenever the test tells the closed ring from its mirror image), "
+                "C16_idempotent (rebuilding from its own closed, correctly oriented rings is the identity). PARTIAL: the link "
+                "between the IEEE shoelace test and the EXACT signed area (Outer clockwise / Inner counter-clockwise for "
+                "non-zero area on the exact domain) is not proved (F64Exact was not completed); it is checked on the "
+                "implementation's output with exact rational arithmetic on every generated ring.",
+        "note": COMMON_NOTE + "The orientation test is Flocq's binary64 arithmetic (four classical-reals stdlib axioms). Macros "
+                "expand to the same constructors and are not exercised separately.",
+        "technique": "Coq proof (list lemmas on closing/reversal, case analysis on the orientation test) + differential "
+                     "correspondence on structured rings + exact-rational orientation oracle",
+        "design_ref": "DESIGN.md section 7 (C16)",
+    },
     "C18": {
         "text": "Theorem for every shape value (unbounded part counts and lengths): bytes emitted by write_to = size_in_bytes, "
                 "record content length = (size+4)/2 exactly (C18_size, C18_record_len, C18_record_bytes; closed under the global "
